@@ -15,7 +15,8 @@ def clauses_for(cfg):
 def run(tier, seed):
     return opscheck.run_property(
         "C11", tier, seed, clauses_for=clauses_for, n_quick=24, n_thorough=240,
-        gen_kw=[{"positive": True}, {"positive": False}, {"positive": False, "zeros": True}],
+        gen_kw=[{"positive": True}, {"positive": False}, {"positive": False, "zeros": True},
+                {"positive": False, "nmax": 5, "nmax3": 3}],
         generator=opsdrive.gen_means_config,
         rule="9 grid classes x cell widths in {1,2} x (positive sixth-power data: bounds, ordering H<=G<=A, geometric "
              "relation G^(w1+w2)=a^w1 b^w2; arbitrary integer data: linear/arithmetic/upwind formulas and linear "
